@@ -7,6 +7,7 @@
 // The harness judges nothing; all expected values are computed by TLC (spec/ConvTrace.tla).
 // The encoders below are the trusted part (MUS ~35 lines, XMI ~45 lines, SMF/RMI/GMF ~60 lines); the
 // encoded bytes are recorded so that the trace specification can re-derive them from the format definition.
+// Several sources may be loaded one after the other on the SAME player (no Init in between): the session dimension of C17.
 // Command "Cvt" (leg C, refinement): calls the converter functions themselves (Convert_mus2midi / Convert_xmi2midi_multi,
 // header-only C, included exactly like src/midi_sequencer_impl.hpp does, with the arguments parseMUS / parseXMI pass) on the
 // encoded bytes of the preceding Mus / Xmi record and records the SMF they produce parsed into abstract form
@@ -345,6 +346,16 @@ int main(int argc, char **argv)
         {
             fileBytes = e == "Mus" ? encodeMus(c) : e == "Xmi" ? encodeXmi(c) : encodeSmf(c);
             srcKind = e == "Mus" ? "mus" : e == "Xmi" ? "xmi" : "smf";
+            // XMI "poke" [[p, v], ...]: the byte at position p modulo the file size is overwritten (a damaged container: the formats
+            // do not define it; an overwritten chunk tag is what the converter itself rejects)
+            if(e == "Xmi" && c.has("poke") && !fileBytes.empty())
+            {
+                const JV &pk = c["poke"];
+                for(size_t i = 0; i < pk.a.size(); ++i) fileBytes[(size_t)pk.a[i].a[0].num() % fileBytes.size()] = (uint8_t)pk.a[i].a[1].num();
+            }
+            // "keep": only the first k bytes of the encoded file are handed to the player (a file cut short: the formats
+            // do not define it, the player may reject it; below 14 bytes no header is complete)
+            if(c.has("keep") && (size_t)c.get("keep", 0) < fileBytes.size()) fileBytes.resize((size_t)c.get("keep", 0));
             w.kv("nbytes", (long long)fileBytes.size());
             w.key("bytes"); w.begin_arr();
             if(fileBytes.size() <= 4096) for(size_t q = 0; q < fileBytes.size(); ++q) w.num(fileBytes[q]);
